@@ -26,7 +26,9 @@ def main(n, binary, build, PROPS):
             for l in p.communicate()[0].splitlines():
                 j = json.loads(l)
                 if j["type"] == "run": bmap[int(j["seed"])] = (j["result"].get("hash"), j["result"].get("status"), json.dumps(j["result"].get("violations")))
-        mism = [s for s in a if s in bmap and a[s] != bmap[s]]
+        # a wall-clock watchdog timeout (loaded machine) is not a result of the simulation: such runs are counted apart
+        timeouts = [s for s in a if s in bmap and ("timeout" in (a[s][1] or "") or "timeout" in (bmap[s][1] or ""))]
+        mism = [s for s in a if s in bmap and a[s] != bmap[s] and s not in timeouts]
         # third: replay from written plan files
         rep = 0
         for s in list(a)[:10]:
@@ -37,6 +39,7 @@ def main(n, binary, build, PROPS):
             os.unlink(path)
             if r.get("hash") != a[s][0]: rep += 1
         print("selftest %s: %d seeds, %d hash mismatches across processes, %d plan-file replays differ" % (prop, len(a), len(mism), rep), flush=True)
-        if mism: print("   e.g. seeds", mism[:5])
+        if mism: print("   e.g. seeds", mism[:5], [(a[s][1], bmap[s][1]) for s in mism[:5]])
+        if timeouts: print("   (%d runs hit the wall-clock watchdog in one of the passes and were not compared)" % len(timeouts))
         bad += len(mism) + rep
     return 1 if bad else 0
